@@ -503,7 +503,14 @@ func (ch *channel) handlePacket(packet []byte) error {
 		default:
 		}
 	default:
-		ch.msg <- msg
+		// Any other message is not a channel message. It is handed to
+		// whoever is waiting on ch.msg, but must not block: nothing reads
+		// ch.msg most of the time, and a peer sending more than chanSize
+		// such packets would otherwise stall the mux read loop for good.
+		select {
+		case ch.msg <- msg:
+		default:
+		}
 	}
 	return nil
 }
